@@ -50,6 +50,7 @@ def run(req, real_out):
     contracts = {c['key']: c for c in cmod.CONTRACTS}
     keys = args.get('keys') or sorted(gmod.GENS)
     evals, distinct, samples, violations, bounds, skipped = 0, set(), [], [], [], 0
+    per_clause = {}
     deadline = time.time() + (args.get('budget', 120) * (1 if tier == 'quick' else 5))
     for key in keys:
         c = contracts[key]
@@ -78,10 +79,15 @@ def run(req, real_out):
             if len(samples) < 8 and evals % 211 == 1:
                 samples.append({'contract': key, 'input': label, 'outcome': out.get('outcome')})
             for cl in out.get('violated', []):
-                if len(violations) < 40:
-                    violations.append({'clause': f'{key}/{cl}', 'contract': key, 'file': c.get('file'), 'func': c.get('func'),
-                                       'input': {'case': label, **out.get('args', {})},
-                                       'observed': {k: out.get(k) for k in ('outcome', 'result', 'exc', 'clauses')}})
+                per_clause[(key, cl)] = per_clause.get((key, cl), 0) + 1
+                if per_clause[(key, cl)] <= 3:          # a few witnesses per clause; no global cap that could hide other clauses
+                    v = {'clause': f'{key}/{cl}', 'contract': key, 'file': c.get('file'), 'func': c.get('func'),
+                         'input': {'case': label, **out.get('args', {})},
+                         'observed': {k: out.get(k) for k in ('outcome', 'result', 'exc', 'clauses')}}
+                    fk = (case.get('finding_keys') or {}).get(cl)
+                    if fk:
+                        v['finding_key'] = fk       # the input class of a finding recorded in known_findings.json
+                    violations.append(v)
         if n > 0 and nret == 0 and (c.get('ensures') or c.get('bounded_ensures')):
             # every case ended in an exception although postconditions are stated: the harness, not the code, is at fault
             json.dump({'error': f'{key}: none of the {n} cases returned normally (vacuity guard of the bounded stand-in)'}, real_out)
